@@ -734,6 +734,24 @@ pub fn run(tier: Tier, replay: Option<&str>) {
             }
         }
     }
+    // boards whose receive windows last as long as / longer than the RX1 -> RX2 gap, with and without a window offset /
+    // lead time, and with a clock next to its wrap (window bookkeeping of both front-ends takes other paths there)
+    for region in regions.iter().take(2) {
+        for front in ["nb", "async-c"] {
+            for (dur, offs, clock) in [(1000u32, 0i32, None), (2500, 40, None), (6000, 0, None), (1000, 40, Some(0xFFFF_F000u32))] {
+                let mut dev = DevCfg::otaa(region);
+                dev.duration_ms = dur;
+                dev.offset_ms = offs;
+                dev.clock_start = clock;
+                let bc = BCfg { front: front.into(), dev: dev.clone() };
+                let cj = serde_json::to_value(&bc).unwrap();
+                let st = explore::bfs(&ctx, &cj, &|| BSys::new(front, &dev), 3, 250_000);
+                states += st.states;
+                transitions += st.transitions;
+                capped |= st.capped;
+            }
+        }
+    }
     // ---- Layer C: long runs of unanswered join attempts (the walk over the join channels of the fixed plans
     // keeps state that only shows after many attempts), with and without a join bias
     let mut join_runs = 0u64;
@@ -776,7 +794,7 @@ pub fn run(tier: Tier, replay: Option<&str>) {
         ],
         "evaluations": ctx.evals(),
         "distinct_nontrivial": states + seen.lock().unwrap().len() as u64,
-        "rule": "Layer A: for every region x {ABP,OTAA} x base state x front-end, one authentic downlink (FOpts and port 0) carrying one command with its full value domain (LinkADRReq DR x TXPower x ChMaskCntl x mask patterns x NbTrans x RFU bit and 2-3 command blocks; RXParamSetupReq all 256 DLSettings x frequency set; RXTimingSetupReq / TXParamSetupReq / DutyCycleReq all 256; NewChannelReq index x frequency set x DrRange bytes; DlChannelReq; every CID 0..255 with 0..5 trailing bytes) or one JoinAccept (all 256 DLSettings x RxDelay x CFList variants); every distinct resulting MAC snapshot is followed by two uplinks with the first RNG draw enumerated over 0..63. Layer B: BFS over histories (uplinks, commands that delete channels / shrink the mask / change DR, junk and oversized frames, set_datarate for region-defined rates, set_adr, joins with minimal CFLists, ADR back-off from a pre-loaded counter). Layer C: runs of 150 (thorough: 400) consecutive unanswered join attempts on the fixed plans for each join-bias setting. states = distinct post-command snapshots (A) + distinct canonical states (B)",
+        "rule": "Layer A: for every region x {ABP,OTAA} x base state x front-end, one authentic downlink (FOpts and port 0) carrying one command with its full value domain (LinkADRReq DR x TXPower x ChMaskCntl x mask patterns x NbTrans x RFU bit and 2-3 command blocks; RXParamSetupReq all 256 DLSettings x frequency set; RXTimingSetupReq / TXParamSetupReq / DutyCycleReq all 256; NewChannelReq index x frequency set x DrRange bytes; DlChannelReq; every CID 0..255 with 0..5 trailing bytes) or one JoinAccept (all 256 DLSettings x RxDelay x CFList variants); every distinct resulting MAC snapshot is followed by two uplinks with the first RNG draw enumerated over 0..63. Layer B: BFS over histories (uplinks, commands that delete channels / shrink the mask / change DR, junk and oversized frames, set_datarate for region-defined rates, set_adr, joins with minimal CFLists, ADR back-off from a pre-loaded counter). Layer B also on boards with 1000 / 2500 / 6000 ms receive windows, window offsets and a clock next to its wrap. Layer C: runs of 150 (thorough: 400) consecutive unanswered join attempts on the fixed plans for each join-bias setting. states = distinct post-command snapshots (A) + distinct canonical states (B)",
         "layer_a_cases": cases_a.load(Ordering::Relaxed),
         "layer_a_followups": followups.load(Ordering::Relaxed),
         "layer_b_depth": depth,
